@@ -108,6 +108,8 @@ def _scenarios():
         {'cond': True, 'enter': {'B': [('g', {})], 'A': [('e', {})]}}, ('raise', 'EdzedCircuitError'), None)
     add("entry action raises", ('guard',), 'A', True, 'e', {}, {'cond': True, 'enter': {'B': 'raise'}},
         ('fault', 'RuntimeError'), None)
+    add("entry action requests a chained transition and then fails: nothing stays pending", ('chain', 'guard'),
+        'A', True, 'e', {}, {'cond': True, 'enter': {'B': [('g', {}), 'RAISE']}}, ('fault', 'RuntimeError'), None)
     add("rejected nested event inside an entry action changes nothing", ('chain', 'reject', 'data'), 'A', True,
         'e', {'k': 1}, {'cond': True, 'enter': {'B': [('f', {'z': 9})]}}, ('return', True),
         [cb('cond', 'e', {'k': 1}), cb('exit', 'A', {'k': 1}), ('ev', 'on_exit'), ('T0',), ('S', 'B'),
@@ -190,8 +192,10 @@ def fsm_ctx_run(ck):
                     todo = script.get('enter', {}).get(name)
                     if todo == 'raise':
                         raise RuntimeError('entry action failed')
-                    for et, dt in (todo or []):
-                        reenter(_me, et, dt)
+                    for item in (todo or []):
+                        if item == 'RAISE':
+                            raise RuntimeError('entry action failed after chaining')
+                        reenter(_me, *item)
                     if todo:
                         T.append(('after-nested', kind, name, _snap(ctxval[0])))
                 return [None]
@@ -261,8 +265,10 @@ def fsm_ctx_run(ck):
             if me.env.get('self._fsm_event_active') is not False:
                 bad['guard'].append(f"{label}: _fsm_event_active is {me.env.get('self._fsm_event_active')!r} after "
                                     f"the call ended with {out} (the machine refuses or defers every later event)")
-            if want[0] == 'return' and me.env.get('self._next_event') is not None:
-                bad['chain'].append(f"{label}: a chained request is left pending after the call returned")
+            if me.env.get('self._next_event') is not None:
+                bad['chain'].append(f"{label}: a chained request is left pending after the call ended with {out}: "
+                                    "the next event to this machine fails (`assert self._next_event is None`) "
+                                    "and stops the simulation, also when this error was not fatal")
             # entry actions and timer starts run inside the window that permits a recursive event
             depth = 0
             for t in T:
